@@ -170,9 +170,13 @@ def check_dispatch(shapes=((4, 4, 4), (2, 4, 6), (4, 2, 2)), seed=0):
     from emg3d import core, solver
     cases = 0
     for shape in shapes:
-        h, e, s, eta, zeta = make_problem(shape, seed)
-        for lr in range(8):
-            for nu in (1, 2):
+        h, e0, s, eta, zeta = make_problem(shape, seed)
+        rng = np.random.default_rng(seed + 17)
+        # second pass: a probe field with non-zero tangential boundary values (inhomogeneous boundary data): smoothing() itself must still
+        # be nothing but the kernel sequence, and must not write a boundary value
+        e1 = {c: e0[c] + rng.standard_normal(e0[c].shape) * (1 if not np.iscomplexobj(e0[c]) else (1 + 0.5j)) for c in 'xyz'}
+        for lr, nu, e in [(lr, nu, e) for e in (e0, e1) for lr in range(8) for nu in (1, 2)]:
+            if True:
                 cases += 1
                 grid = types.SimpleNamespace(h=h, shape_cells=shape)
                 model = types.SimpleNamespace(eta_x=eta['x'], eta_y=eta['y'], eta_z=eta['z'], zeta=zeta, grid=grid)
@@ -188,7 +192,18 @@ def check_dispatch(shapes=((4, 4, 4), (2, 4, 6), (4, 2, 2)), seed=0):
                     k(want['x'], want['y'], want['z'], s['x'], s['y'], s['z'], eta['x'], eta['y'], eta['z'], zeta, h[0], h[1], h[2], nu)
                 for c in 'xyz':
                     if not np.array_equal(got[c], want[c]):
-                        return dict(reproduced=True, cases=cases, shape=shape, lr_dir=lr, nu=nu, component=c,
+                        return dict(reproduced=True, cases=cases, shape=shape, lr_dir=lr, nu=nu, component=c, boundary_data=e is e1,
                                     clause='smoothing() differs from the stated kernel sequence / argument binding',
                                     how='contracts.c03_concrete.check_dispatch')
+                    ax = 'xyz'.index(c)
+                    for a2 in range(3):
+                        if a2 == ax:
+                            continue
+                        for side in (0, -1):
+                            sl = [slice(None)] * 3
+                            sl[a2] = side
+                            if not np.array_equal(got[c][tuple(sl)], e[c][tuple(sl)]):
+                                return dict(reproduced=True, cases=cases, shape=shape, lr_dir=lr, nu=nu, component=c, boundary_data=e is e1,
+                                            clause='smoothing() wrote a tangential boundary value', axis=a2, side=side,
+                                            how='contracts.c03_concrete.check_dispatch')
     return dict(reproduced=False, cases=cases)
